@@ -28,6 +28,7 @@ package runner
 //@   ensures [runs_steps_only] forall k int :: old(tlen()) <= k && k < tlen() ==> evIs(k, "internal/cmd/runner:Step.Run")
 //@   ensures [success_means_all_ran_ok] result == nil ==> tlen() - old(tlen()) == len(r.steps) && (forall j int :: 0 <= j && j < len(r.steps) ==> evErr(old(tlen()) + j) == nil)
 //@   ensures [failure_is_the_last_steps_error] result != nil ==> tlen() > old(tlen()) && result == evErr(tlen() - 1)
+//@   ensures [success_means_no_step_failed] result == nil ==> (forall k int :: old(tlen()) <= k && k < tlen() ==> evErr(k) == nil)
 //@   loop 1
 //@     invariant [count] tlen() == old(tlen()) + $i
 //@     invariant [order] forall j int :: 0 <= j && j < $i ==> evIs(old(tlen()) + j, "internal/cmd/runner:Step.Run") && evRecv(old(tlen()) + j) == r.steps[j] && evErr(old(tlen()) + j) == nil
